@@ -177,6 +177,10 @@ func ruleRSBase(p *Prog, r *Reporter) {
 					if isCall && c.Call.StaticCallee() != nil && c.Call.StaticCallee().Name() == "Clone" && len(c.Call.Args) > 0 && c.Call.Args[0] == ssa.Value(ld) {
 						continue
 					}
+					// a read-only observation: a callee that does not write its receiver, whose result is only measured with len()
+					if isCall && c.Call.StaticCallee() != nil && len(c.Call.Args) > 0 && c.Call.Args[0] == ssa.Value(ld) && onlyMeasured(p, c) {
+						continue
+					}
 					okUse = false
 					why = "used by " + oneLine(u.String())
 				}
